@@ -8,6 +8,7 @@ Verdicts are three-valued (DESIGN.md 3.5):
 
 from __future__ import annotations
 
+import builtins
 import collections
 import hashlib
 import json
@@ -331,7 +332,13 @@ class Run:
             json.dump(ev, fd, indent=1, ensure_ascii=True)
             fd.write("\n")
 
-        # ---- report
+        # ---- report (a reader that closes the pipe early must not change the exit code)
+        def print(*args):  # noqa: A001
+            try:
+                builtins.print(*args)
+            except BrokenPipeError:
+                sys.stdout = open(os.devnull, "w", encoding="utf-8")  # noqa: SIM115
+
         print(
             f"[{self.prop}] tier={self.tier} seed={self.seed} verdict={verdict} "
             f"evaluations={coverage['evaluations']} distinct_nontrivial={acc.n_distinct} "
